@@ -150,6 +150,66 @@ def check_C19(res, tier, seed, replay):
             events.append({'e': 'Pair', 'cfg': 'tbb1mpi1', 'first': a, 'second': b, 'missing': sorted(ent_b - ent_ab),
                            'own_alone': own_b.get(b, 0), 'own_after': own_ab.get(b, 0)})
             npair += 1
+        # templates are only checked when instantiated: per configuration, two translation units include the umbrella header and
+        # call every entry point the configuration offers on a small graph; the program must compile, link and run
+        def use_program(cfg_):
+            tbb, mpi = cfg_
+            cfgname = 'tbb%dmpi%d' % (tbb, mpi)
+            cinc = vlib.config_include(tbb, mpi)
+            body = '''#include <parmcb/parmcb.hpp>
+#include <boost/graph/adjacency_list.hpp>
+#include <list>
+typedef boost::adjacency_list<boost::vecS, boost::vecS, boost::undirectedS, boost::no_property, boost::property<boost::edge_weight_t, double> > G;
+double use_NAME() {
+    G g(4); auto w = boost::get(boost::edge_weight, g);
+    int es[5][2] = {{0,1},{1,2},{2,3},{3,0},{0,2}}; double ws[5] = {1, 2, 3, 4, 2.5};
+    for (int i = 0; i < 5; i++) w[boost::add_edge(es[i][0], es[i][1], g).first] = ws[i];
+    typedef boost::graph_traits<G>::edge_descriptor E;
+    std::list<std::list<E>> c; double t = 0;
+    t += parmcb::mcb_sva_signed(g, w, std::back_inserter(c));
+    t += parmcb::mcb_sva_fvs_trees(g, w, std::back_inserter(c));
+    t += parmcb::mcb_sva_iso_trees(g, w, std::back_inserter(c));
+    t += parmcb::approx_mcb_sva_signed(g, w, 2, std::back_inserter(c));
+    t += parmcb::approx_mcb_sva_fvs_trees(g, w, 2, std::back_inserter(c));
+    t += parmcb::approx_mcb_sva_iso_trees(g, w, 2, std::back_inserter(c));
+#ifdef PARMCB_HAVE_TBB
+    t += parmcb::mcb_sva_signed_tbb(g, w, std::back_inserter(c));
+    t += parmcb::mcb_sva_fvs_trees_tbb(g, w, std::back_inserter(c));
+    t += parmcb::mcb_sva_iso_trees_tbb(g, w, std::back_inserter(c));
+    t += parmcb::approx_mcb_sva_signed_tbb(g, w, 2, std::back_inserter(c));
+    t += parmcb::approx_mcb_sva_fvs_trees_tbb(g, w, 2, std::back_inserter(c));
+    t += parmcb::approx_mcb_sva_iso_trees_tbb(g, w, 2, std::back_inserter(c));
+#endif
+    return t;
+}
+'''
+            objs, compiled = [], True
+            for nm in ('a', 'b'):
+                src = os.path.join(wd, 'use_%s_%s.cpp' % (cfgname, nm))
+                with open(src, 'w') as f:
+                    f.write(body.replace('use_NAME', 'use_' + nm))
+                obj = src[:-4] + '.o'
+                pc = vlib.sh(['g++', '-std=c++14', '-O0', '-w', '-I' + os.path.join(vlib.REPO, 'include'), '-I' + cinc, '-c', src, '-o', obj], timeout=900)
+                compiled = compiled and pc.returncode == 0
+                objs.append(obj)
+            linked = ran = False
+            err = ''
+            if compiled:
+                mainc = os.path.join(wd, 'use_%s_main.cpp' % cfgname)
+                with open(mainc, 'w') as f:
+                    f.write('double use_a(); double use_b();\nint main() { double a = use_a(), b = use_b(); return (a == b && a > 0) ? 0 : 1; }\n')
+                exe = mainc[:-4] + '.out'
+                pl = vlib.sh(['g++', '-std=c++14', '-w'] + objs + [mainc, '-o', exe] + (['-ltbb'] if tbb else []) + ['-lboost_timer'], timeout=600)
+                linked = pl.returncode == 0
+                if linked:
+                    ran = vlib.sh([exe], timeout=120).returncode == 0
+                else:
+                    err = '\n'.join(l for l in pl.stdout.splitlines() if 'error' in l or 'multiple definition' in l)[:400]
+            else:
+                err = '\n'.join(l for l in pc.stdout.splitlines() if 'error' in l)[:400]
+            return {'e': 'Use', 'cfg': cfgname, 'compiled': compiled, 'linked': linked, 'ran': ran, 'err': err}
+        with cf.ThreadPoolExecutor(max_workers=len(cfgs)) as ex:
+            events += list(ex.map(use_program, cfgs))
         for (tbb, mpi) in cfgs:
             events.append({'e': 'AllPairs', 'cfg': 'tbb%dmpi%d' % (tbb, mpi)})
         trace = os.path.join(wd, 'build.ndjson')
@@ -165,7 +225,7 @@ def check_C19(res, tier, seed, replay):
                                   '%d real link runs (every header of the full configuration included from two TUs, plus sampled mixed pairs); TLC validates the links against the one-definition rule of Build.tla '
                                   'and decides every pair of TUs of each configuration from the symbol tables; %d ordered pairs of public headers preprocessed in ONE translation unit (the second header must enter the same files and keep its own text)' % (ncomp, len(link_jobs), npair))
         res.cov['rule'] = 'TU = (public header under include/parmcb, configuration of PARMCB_HAVE_TBB/MPI); all are non-trivial'
-        res.cov['event_counts'] = {'Compile': ncomp, 'Link': len(link_jobs), 'AllPairs': len(cfgs), 'Pair': npair}
+        res.cov['event_counts'] = {'Compile': ncomp, 'Link': len(link_jobs), 'AllPairs': len(cfgs), 'Pair': npair, 'Use': len(cfgs)}
         res.sample(events[0])
         for rj in v['rejects']:
             ev = json.loads(rj['segment'][0])
